@@ -471,7 +471,9 @@ package ircserver
 //@     invariant reverseold: forall ch lcChan :: ch in i.channels && oldNick in i.channels[ch].nicks ==> ch in s.Channels
 //@     invariant nonempty: forall ch lcChan :: ch in i.channels ==> (exists n lcNick :: n in i.channels[ch].nicks)
 
+// C14 limits: a channel is only created while the configured maximum is not reached.
 //@ func IRCServer.cmdJoin
+//@   assert@mapupdate i.channels#0 : limit: i.Config.MaxChannels == 0 || len(i.channels) < i.Config.MaxChannels
 //@   requires registered: s.loggedIn && !s.Server
 //@   requires api: s.Id.Reply == 0
 
@@ -587,7 +589,7 @@ package ircserver
 // MinParams 3: that branch (and its return) is dead code, not a vacuous proof.
 //@ func IRCServer.cmdServerTopic
 //@   requires conforming-prefix: msg.Prefix != nil
-//@   opt dead = return#3
+//@   opt dead = return#0
 //@ func IRCServer.cmdServerKill
 //@   requires conforming-prefix: msg.Prefix != nil
 //@   requires role: s.Server
